@@ -175,7 +175,7 @@ CHECKS = {
         "produced vector stays in the Krylov span (sector). Tie: real expmv/eigs/lin_solver on random symmetric block operators (Hermitian or not, real/imaginary/complex t over "
         "decades incl. forced sub-stepping, all ncv/flags, zero, tiny-norm, near-invariant and block-sparse start vectors handed over without their empty blocks) vs scipy expm / numpy eigh, eig, solve and vs the Float instantiation of the model.",
    note=TB + "The tolerance claim of the adaptive controller is a heuristic error estimate and is tested, not proved; floating-point loss of orthogonality is outside exact-arithmetic "
-        "theorems. Five genuine numerical defects are recorded as known findings.",
+        "theorems. Six genuine numerical defects are recorded as known findings.",
    technique="Lean 4 proof of Krylov algebra/bookkeeping + dense oracles + Float model correspondence", design="§5 C18"),
  "C19": dict(
    cat="proof",
